@@ -148,6 +148,16 @@ func c1RegionCases(r *rng, thorough bool) []*c1case {
 			src := c1Wrap(fmt.Sprintf("var g0 int = %d\n\nfunc f1() (r0 int) {\n\tr0 = 2\n\tg0 /= 3\n\treturn\n}\n\nfunc f3() (r0 int) {\n\tr0 = 10\n\tfmt.Println(g0)\n\treturn\n}\n\n", 30+a), "\tg0 = f1()\n\tfmt.Println(g0)\n\tg0 = f3()\n\tfmt.Println(g0)\n")
 			add("named-result-alias", src, "2\n2\n10\nend\n", c1Pred{"0\n10\n10\nend\n", "ok"})
 		}
+		// multi-assign-iface: the temporaries of a tuple assignment cannot hold yaegi's interface wrapper
+		{
+			src := c1Wrap("", fmt.Sprintf("\tvar x, y interface{} = %d, \"s\"\n\tfmt.Println(\"start\")\n\tx, y = y, x\n\tfmt.Println(x, y)\n", a))
+			add("multi-assign-iface", src, "", c1Pred{"start\n", "panic:"})
+		}
+		// paren-dst-lit: the literal is built in place of a parenthesised destination and then dropped
+		{
+			src := c1Wrap("type S struct {\n\tA, B int\n}\n\ntype H struct {\n\tF, G S\n}\n\n", fmt.Sprintf("\th := H{S{1, 2}, S{3, 4}}\n\t(h.F) = S{A: %d, B: %d}\n\tfmt.Println(h)\n", a, b))
+			add("paren-dst-lit", src, "", c1Pred{"{{1 2} {3 4}}\nend\n", "ok"})
+		}
 		// paren-literal
 		{
 			src := c1Wrap("", "\tb := true\n\ts := \"hello\"\n\tfmt.Println(\"start\")\n\tif (s >= (\"q\")) || b {\n\t\tfmt.Println(\"then\")\n\t}\n")
